@@ -15,9 +15,35 @@ CFGS = [("native", {}), ("native", {"SODIUM_VERIF_CPUID7_EBX_CLEAR": "0x10000"})
         ("native", {"SODIUM_VERIF_CPUID1_ECX_CLEAR": "0x10080201", "SODIUM_VERIF_CPUID1_EDX_CLEAR": "0x4000000"}), ("portable", {})]
 
 
+def schedule(R, thorough):
+    """the outer iteration of Argon2 (passes x slices x lanes): exhaustive small model + the positions the real code hands to
+    fill_segment (guarded hook) for pass counts far beyond what the byte-exact oracle can evaluate"""
+    import re
+    r = R.tlc("sys/Argon2Schedule.tla", "MCArgon2Schedule.cfg", workers=2, timeout=300)
+    if r.violated:
+        R.violation("Argon2Schedule: a position is skipped or repeated: " + r.tail(20), r.out, name="model")
+    n = 0
+    for variant in (["native", "portable"] if thorough else ["native"]):
+        exe = R.cc("argon_sched_driver", ["argon_sched_driver.c"], variant)
+        out = R.path("pw", "sched-%s.ndjson" % variant)
+        R.run([exe, out, "1", "3", "4", "255", "256", "257", "65535", "65536", "65537"] + (["131075", "300000"] if thorough else []), ok_codes=(0, 70), timeout=1800)
+        tr = R.tlc("sys/TraceArgon2Schedule.tla", "TraceArgon2Schedule.cfg", env={"TRACE": out}, timeout=1800, heap="6g", tag="sched-" + variant)
+        evs = open(out).read().splitlines()
+        n += len(evs)
+        m = re.search(r'"REJECTED at line",\s*(\d+)', tr.out)
+        if m or tr.violated or not tr.ok:
+            k = int(m.group(1)) if m else 0
+            R.violation("Argon2 fills a segment at a position the schedule does not allow (%s build): %s after %s"
+                        % (variant, (evs[k - 1] if 0 < k <= len(evs) else tr.tail(6))[:200], (evs[k - 2] if 1 < k <= len(evs) else "")[:120]),
+                        {"variant": variant, "events": evs[max(0, k - 5):k + 1]}, name="schedule")
+    R.cov["argon2_schedule"] = {"model_states": r.distinct, "segment_events_validated": n, "passes": "1..300000" if thorough else "1..65537"}
+    return n
+
+
 def run(R):
     thorough = R.tier == "thorough"
     R.build_all(sorted({v for v, _ in CFGS}))
+    nsched = schedule(R, thorough)
     merged, order = {}, []
     for i, (variant, env) in enumerate(CFGS):
         exe = R.cc("pwhash_driver", ["pwhash_driver.c"], variant)
